@@ -233,7 +233,8 @@ func cmdCheck(args []string) int {
 			var keep []*Obligation
 			for _, o := range r.Obls {
 				for _, k := range kf {
-					if strings.HasPrefix(o.Kind, k) || o.Kind == "cover" {
+					// "kind" keeps obligations of that kind; "=text" keeps obligations whose name contains text
+					if (strings.HasPrefix(k, "=") && strings.Contains(o.Name, k[1:])) || (!strings.HasPrefix(k, "=") && strings.HasPrefix(o.Kind, k)) || o.Kind == "cover" {
 						keep = append(keep, o)
 						break
 					}
